@@ -122,6 +122,31 @@ Theorem C10_residue_sub_double_value : forall (K : fld) (Bp C : list K) (p : K),
     peval Bp x / (fpow (x - p) 2 * peval C x) =
       rat_eval (Bp, C) p / fpow (x - p) 2 + (rat_eval (rdiff (Bp, C)) p / fnat (natfact 1)) / (x - p) + peval W x / peval C x.
 Proof. exact residue_sub_double_value. Qed.
+(* residues of EVERY order at a pole of EVERY multiplicity n: the Taylor-jet coefficients
+   c_k = (B/C)^(k)(p)/k! obtained by division in ascending powers of the shifted polynomials *)
+Theorem C10_residue_k_general : forall (K : fld) (Bp C : list K) (p : K) (n : nat), peval C p <> 0 ->
+  forall x, peval Bp x = peval C x * peval (jet_residues p n Bp C) (x - p) + fpow (x - p) n * peval (jet_rest p n Bp C) (x - p).
+Proof. exact residue_k_general. Qed.
+Theorem C10_residue_k_general_value : forall (K : fld) (Bp C : list K) (p : K) (n : nat), peval C p <> 0 ->
+  forall x, x - p <> 0 -> peval C x <> 0 ->
+    peval Bp x / (fpow (x - p) n * peval C x) =
+      pf_val (jet_pf p n (jet_residues p n Bp C)) x + peval (jet_rest p n Bp C) (x - p) / peval C x.
+Proof. exact residue_k_general_value. Qed.
+Theorem C10_asc_div_spec : forall (K : fld) (n : nat) (R d : list K), hd 0 d <> 0 ->
+  forall y, peval R y = peval d y * peval (fst (asc_div n R d)) y + fpow y n * peval (snd (asc_div n R d)) y.
+Proof. exact asc_div_spec. Qed.
+Theorem C10_ptaylor_spec : forall (K : fld) (p : K) (P : list K) (y : K), peval (ptaylor p P) y = peval P (y + p).
+Proof. exact ptaylor_spec. Qed.
+(* the expand-and-recurse fall-back of term(): delay re-attached to every piece *)
+Theorem C10_fallback_LT : forall (K : fld) (cj : K -> K) (B : branches K) (guard : bool -> nat -> nat -> bool),
+  guard_sound guard -> branches_ok K B -> forall (E : Qc -> K), E 0%Qc = 1 ->
+  forall causal s (pieces : list (iterm K)) (T : Qc), qc_ltb T 0 = false ->
+  (forall tm, In tm pieces -> wf_term K s tm /\ it_delay tm = 0%Qc) ->
+  exists r, sum_terms (map (fun tm => term_model K cj B guard causal (set_delay T tm)) pieces) = Some r /\
+            tval K E s r = E T * image_sum K E s pieces.
+Proof. exact fallback_LT. Qed.
+Print Assumptions C10_residue_k_general. Print Assumptions C10_residue_k_general_value. Print Assumptions C10_asc_div_spec.
+Print Assumptions C10_ptaylor_spec. Print Assumptions C10_fallback_LT.
 Print Assumptions C10_residue_sub_simple. Print Assumptions C10_residue_sub_simple_value.
 Print Assumptions C10_residue_sub_double. Print Assumptions C10_residue_sub_double_value.
 
